@@ -44,11 +44,17 @@ Variable E : env.
 Variable rec : node -> st -> node * st.        (* the lowering of a nested element *)
 Variable chk : node -> node -> list str.       (* the check of a nested element *)
 Variable fail : list str.
+(* a property of the visitor state that holds wherever a nested element is lowered (e.g. "no
+   assignment target is pending"); [fun _ => True] when none is needed *)
+Variable P : st -> Prop.
+Hypothesis P_text : forall v s, P s -> P (snd (transform_jsx_text v s)).
+Hypothesis P_mark : forall e s, P s -> P (mark_dynamic E e s).
 
 Definition rec_ok (cs : list node) : Prop :=
-  forall c s', In c cs -> is_elem c = true ->
+  forall c s', P s' -> In c cs -> is_elem c = true ->
     view_item (Elem false (fst (rec c s'))) = Some (VElem (fst (rec c s')))
-    /\ chk c (fst (rec c s')) = [].
+    /\ chk c (fst (rec c s')) = []
+    /\ P (snd (rec c s')).
 
 Lemma text_item v s :
   match jsx_clean v with
@@ -67,60 +73,65 @@ Qed.
 
 (* C02: the children an element receives are exactly its written children, in order *)
 Lemma children_items cs : forall s,
-  rec_ok cs -> forallb child_ok cs = true ->
-  check_items_with chk fail cs (view_items (fst (lower_children_with E rec cs s))) = [].
+  P s -> rec_ok cs -> forallb child_ok cs = true ->
+  check_items_with chk fail cs (view_items (fst (lower_children_with E rec cs s))) = []
+  /\ P (snd (lower_children_with E rec cs s)).
 Proof.
-  induction cs as [|c r IH]; intros s RO OK; [reflexivity|].
+  induction cs as [|c r IH]; intros s HP RO OK; [split; [reflexivity|exact HP]|].
   cbn [forallb] in OK. apply andb_true_iff in OK. destruct OK as [OKc OKr].
-  assert (ROr : rec_ok r). { intros c' s' Hin He. apply RO; [right; exact Hin|exact He]. }
+  assert (ROr : rec_ok r). { intros c' s' HP' Hin He. apply RO; [exact HP'|right; exact Hin|exact He]. }
   cbn [lower_children_with check_items_with].
   destruct c;
     (* kinds that are no children at all *)
     try solve [cbn [src_child_kind];
          match goal with |- context [lower_children_with E rec r ?s0] =>
-           specialize (IH s0 ROr OKr); destruct (lower_children_with E rec r s0) as [r' s1] end;
-         cbn [fst app] in *; exact IH];
+           specialize (IH s0 HP ROr OKr); destruct (lower_children_with E rec r s0) as [r' s1] end;
+         cbn [fst snd app] in *; exact IH];
     (* nested elements and fragments *)
     try solve [cbn [src_child_kind];
          match goal with |- context [rec ?c0 ?s0] =>
-           destruct (RO c0 s0 (or_introl eq_refl) eq_refl) as [HV HC];
-           destruct (rec c0 s0) as [x s0'] eqn:ER; cbn [fst] in HV, HC;
-           specialize (IH s0' ROr OKr); destruct (lower_children_with E rec r s0') as [r' s1];
-           cbn [fst app] in *; change (Elem false x :: r') with ([Elem false x] ++ r');
+           destruct (RO c0 s0 HP (or_introl eq_refl) eq_refl) as [HV [HC HP']];
+           destruct (rec c0 s0) as [x s0'] eqn:ER; cbn [fst snd] in HV, HC, HP';
+           specialize (IH s0' HP' ROr OKr); destruct (lower_children_with E rec r s0') as [r' s1];
+           cbn [fst snd app] in *; destruct IH as [IH IP]; split; [|exact IP];
+           change (Elem false x :: r') with ([Elem false x] ++ r');
            rewrite view_items_app; unfold view_items at 1; cbn [fold_right]; rewrite HV; cbn [app];
            rewrite HC, IH; reflexivity
          end].
   - (* JExprC *)
     cbn [child_ok] in OKc.
     match goal with |- context [JExprC ?e] => destruct e end; cbn [src_child_kind];
-      try (match goal with |- context [lower_children_with E rec r ?s0] =>
-             specialize (IH s0 ROr OKr); destruct (lower_children_with E rec r s0) as [r' s1] end;
-           cbn [fst app] in *;
+      try (match goal with |- context [lower_children_with E rec r (mark_dynamic E ?e0 s)] =>
+             specialize (IH _ (P_mark e0 s HP) ROr OKr);
+             destruct (lower_children_with E rec r (mark_dynamic E e0 s)) as [r' s1] end;
+           cbn [fst snd app] in *; destruct IH as [IH IP]; split; [|exact IP];
            match goal with |- context [view_items (Elem false ?e :: ?rr)] =>
              change (Elem false e :: rr) with ([Elem false e] ++ rr) end;
            rewrite view_items_app; unfold view_items at 1; cbn [fold_right];
            rewrite (view_item_user _ OKc); cbn [app]; rewrite node_eqb_refl, IH; reflexivity).
     (* the empty expression *)
-    specialize (IH s ROr OKr). destruct (lower_children_with E rec r s) as [r' s1]. exact IH.
+    specialize (IH s HP ROr OKr). destruct (lower_children_with E rec r s) as [r' s1]. exact IH.
   - (* JText *)
     cbn [src_child_kind].
     match goal with |- context [transform_jsx_text ?v s] =>
-      pose proof (text_item v s) as HT; destruct (transform_jsx_text v s) as [t s2];
-      cbn [fst] in HT; specialize (IH s2 ROr OKr);
-      destruct (lower_children_with E rec r s2) as [r' s1]; cbn [fst] in *;
+      pose proof (text_item v s) as HT; pose proof (P_text v s HP) as HPT;
+      destruct (transform_jsx_text v s) as [t s2];
+      cbn [fst snd] in HT, HPT; specialize (IH s2 HPT ROr OKr);
+      destruct (lower_children_with E rec r s2) as [r' s1]; cbn [fst snd] in *;
       destruct (jsx_clean v) as [|ch tl]
     end.
     + subst t. exact IH.
-    + destruct HT as [h [-> HH]]. cbn [app].
+    + destruct HT as [h [-> HH]]. cbn [app]. destruct IH as [IH IP]. split; [|exact IP].
       change (Elem false (mk_call h [mk_str (ch :: tl)]) :: r')
         with ([Elem false (mk_call h [mk_str (ch :: tl)])] ++ r').
       rewrite view_items_app. unfold view_items at 1. cbn [fold_right view_item mk_call map mk_str].
       rewrite HH. cbn [app]. rewrite str_eqb_refl, IH. reflexivity.
   - (* JSpreadChild *)
     cbn [src_child_kind].
-    match goal with |- context [lower_children_with E rec r ?s0] =>
-      specialize (IH s0 ROr OKr); destruct (lower_children_with E rec r s0) as [r' s1] end.
-    cbn [fst app] in *.
+    match goal with |- context [lower_children_with E rec r (mark_dynamic E ?e0 s)] =>
+      specialize (IH _ (P_mark e0 s HP) ROr OKr);
+      destruct (lower_children_with E rec r (mark_dynamic E e0 s)) as [r' s1] end.
+    cbn [fst snd app] in *. destruct IH as [IH IP]. split; [|exact IP].
     match goal with |- context [view_items (Elem true ?e :: ?rr)] =>
       change (Elem true e :: rr) with ([Elem true e] ++ rr) end.
     rewrite view_items_app. unfold view_items at 1. cbn [fold_right view_item app].
@@ -133,6 +144,7 @@ End Children.
 Section Finish.
 Variable E : env.
 Variable rec : node -> st -> node * st.
+Variable P : st -> Prop.
 
 Lemma live_nil_text v : jsx_clean v = [] -> forall s, transform_jsx_text v s = (None, s).
 Proof. intros H s. unfold transform_jsx_text. rewrite transform_text_is_jsx_clean, H. reflexivity. Qed.
@@ -209,8 +221,8 @@ Definition sole_special (live : list node) : bool :=
 
 (* a live child lowers to exactly one element; what kind follows the child *)
 Lemma lower_one c s :
-  src_child_kind c <> None -> child_ok c = true ->
-  forall chk0, rec_ok rec chk0 [c] ->
+  src_child_kind c <> None -> child_ok c = true -> P s ->
+  forall chk0, rec_ok rec chk0 P [c] ->
   exists x, fst (lower_children_with E rec [c] s) = [x]
             /\ match c with
                | JExprC e => x = Elem false e
@@ -218,18 +230,18 @@ Lemma lower_one c s :
                | _ => exists y, x = Elem false y /\ not_gen_call y = false
                end.
 Proof.
-  intros LIVE OK chk0 RO. cbn [lower_children_with].
+  intros LIVE OK HP chk0 RO. cbn [lower_children_with].
   destruct c; cbn [src_child_kind] in LIVE; try (exfalso; apply LIVE; reflexivity).
   - (* JsxE *)
     match goal with |- context [rec ?c0 s] =>
-      destruct (RO c0 s (or_introl eq_refl) eq_refl) as [HV _]; destruct (rec c0 s) as [x s1] end.
+      destruct (RO c0 s HP (or_introl eq_refl) eq_refl) as [HV _]; destruct (rec c0 s) as [x s1] end.
     cbn [fst app] in *. eexists. split; [reflexivity|]. exists x. split; [reflexivity|].
     destruct x; try (cbn in HV; discriminate HV).
     match goal with |- not_gen_call (Call ?b _ _ _ _) = false => is_var b; revert HV; destruct b; intros HV end;
       [reflexivity|].
     cbn in HV. discriminate HV.
   - match goal with |- context [rec ?c0 s] =>
-      destruct (RO c0 s (or_introl eq_refl) eq_refl) as [HV _]; destruct (rec c0 s) as [x s1] end.
+      destruct (RO c0 s HP (or_introl eq_refl) eq_refl) as [HV _]; destruct (rec c0 s) as [x s1] end.
     cbn [fst app] in *. eexists. split; [reflexivity|]. exists x. split; [reflexivity|].
     destruct x; try (cbn in HV; discriminate HV).
     match goal with |- not_gen_call (Call ?b _ _ _ _) = false => is_var b; revert HV; destruct b; intros HV end;
@@ -256,6 +268,9 @@ Section Refine.
 Variable E : env.
 Variable rec : node -> st -> node * st.
 Variable chk : node -> node -> list str.
+Variable P : st -> Prop.
+Hypothesis P_text : forall v s, P s -> P (snd (transform_jsx_text v s)).
+Hypothesis P_mark : forall e s, P s -> P (mark_dynamic E e s).
 
 Lemma lower_cons c r s :
   fst (lower_children_with E rec (c :: r) s)
@@ -277,8 +292,8 @@ Qed.
 Lemma child_ok_In c cs : forallb child_ok cs = true -> In c cs -> child_ok c = true.
 Proof. intros H Hin. rewrite forallb_forall in H. apply H. exact Hin. Qed.
 
-Lemma rec_ok_sub cs cs' : (forall c, In c cs' -> In c cs) -> rec_ok rec chk cs -> rec_ok rec chk cs'.
-Proof. intros SUB RO c s' Hin He. apply RO; [apply SUB; exact Hin|exact He]. Qed.
+Lemma rec_ok_sub cs cs' : (forall c, In c cs' -> In c cs) -> rec_ok rec chk P cs -> rec_ok rec chk P cs'.
+Proof. intros SUB RO c s' HP Hin He. apply RO; [exact HP|apply SUB; exact Hin|exact He]. Qed.
 
 Definition elems_shape_of (live : list node) (elems : list node) : Prop :=
   match live with
@@ -290,19 +305,19 @@ Definition elems_shape_of (live : list node) (elems : list node) : Prop :=
   end.
 
 Lemma elems_shape cs s :
-  rec_ok rec chk cs -> forallb child_ok cs = true ->
+  P s -> rec_ok rec chk P cs -> forallb child_ok cs = true ->
   elems_shape_of (live_children cs) (fst (lower_children_with E rec cs s)).
 Proof.
-  intros RO OK. rewrite lower_live.
+  intros HP RO OK. rewrite lower_live.
   assert (L : forall c, In c (live_children cs) ->
-                        src_child_kind c <> None /\ child_ok c = true /\ rec_ok rec chk [c]).
+                        src_child_kind c <> None /\ child_ok c = true /\ rec_ok rec chk P [c]).
   { intros c Hin. destruct (live_In _ _ Hin) as [H1 H2]. split; [exact H2|].
     split; [exact (child_ok_In _ _ OK H1)|].
     apply (rec_ok_sub cs); [|exact RO]. intros c' [<-|[]]. exact H1. }
   destruct (live_children cs) as [|c1 [|c2 r]].
   - reflexivity.
   - destruct (L c1 (or_introl eq_refl)) as [H1 [H2 H3]].
-    destruct (lower_one E rec c1 s H1 H2 chk H3) as [x [HX HK]].
+    destruct (lower_one E rec P c1 s H1 H2 HP chk H3) as [x [HX HK]].
     unfold elems_shape_of. rewrite HX.
     destruct c1; try exact HK; try (destruct HK as [y0 [-> Hy]]; exists y0; split; [reflexivity|exact Hy]).
     + subst x. reflexivity.
@@ -310,9 +325,11 @@ Proof.
   - destruct (L c1 (or_introl eq_refl)) as [H1 [H2 H3]].
     destruct (L c2 (or_intror (or_introl eq_refl))) as [G1 [G2 G3]].
     rewrite lower_cons.
-    destruct (lower_one E rec c1 s H1 H2 chk H3) as [x [HX _]]. rewrite HX.
+    destruct (lower_one E rec P c1 s H1 H2 HP chk H3) as [x [HX _]]. rewrite HX.
     rewrite lower_cons.
-    destruct (lower_one E rec c2 (snd (lower_children_with E rec [c1] s)) G1 G2 chk G3) as [y [HY _]].
+    assert (HP1 : P (snd (lower_children_with E rec [c1] s))).
+    { apply (children_items E rec chk [] P P_text P_mark [c1] s HP H3). cbn [forallb]. rewrite H2. reflexivity. }
+    destruct (lower_one E rec P c2 (snd (lower_children_with E rec [c1] s)) G1 G2 HP1 chk G3) as [y [HY _]].
     rewrite HY. cbn [app]. unfold elems_shape_of. destruct c1; eexists; eexists; eexists; reflexivity.
 Qed.
 
@@ -426,15 +443,15 @@ Qed.
 
 (* C02 / C03: the children argument the transform builds is the one the property describes *)
 Theorem children_refine cs s s2 is_comp vslots :
-  rec_ok rec chk cs -> forallb child_ok cs = true ->
+  P s -> rec_ok rec chk P cs -> forallb child_ok cs = true ->
   assign_left s2 = None ->
   (is_comp = false -> sole_special (live_children cs) = false) ->
   check_children_with E chk is_comp vslots cs
     (fst (finish_children E (fst (lower_children_with E rec cs s)) is_comp vslots s2)) = [].
 Proof.
-  intros RO OK AL NS.
-  pose proof (children_items E rec chk (failtag is_comp) cs s RO OK) as ITEMS.
-  pose proof (elems_shape cs s RO OK) as SH.
+  intros HP RO OK AL NS.
+  destruct (children_items E rec chk (failtag is_comp) P P_text P_mark cs s HP RO OK) as [ITEMS _].
+  pose proof (elems_shape cs s HP RO OK) as SH.
   set (elems := fst (lower_children_with E rec cs s)) in *.
   unfold check_children_with. fold (failtag is_comp).
   destruct (live_children cs) as [|c1 [|c2 r]] eqn:EL.
